@@ -431,10 +431,14 @@ fn gen_case(g: &mut Xo, for_dist: bool) -> (Api, Shape, Vec<u32>) {
             if big {
                 *g.pick(&[0, 1, u32::MAX, u32::MAX - 1, u32::MAX / 2, u32::MAX / 2 + 1, 1 << 31])
             } else {
-                match g.below(8) {
+                match g.below(10) {
                     0 | 1 => 0,
                     2 => u32::MAX / 2,
                     3 => 5,
+                    // large weights of different magnitudes: totals that are a
+                    // sizeable, non-power-of-two fraction of 2^32 expose biased
+                    // reductions of a random word
+                    4 | 5 => *g.pick(&[1u32 << 30, 1 << 31, 3 << 29, u32::MAX / 3, u32::MAX / 5, 1 << 28, 5 << 27]),
                     _ => g.range(1, 3) as u32,
                 }
             }
